@@ -236,6 +236,8 @@ def run(ctx):
         d = gendev.gen_device(rng, prof)
         if rng.random() < 0.5:
             add_boundary_literal(rng, d)
+        if rng.random() < 0.4:
+            d["config"]["defmt_feature"] = "defmt"
         if rng.random() < 0.10:
             inject_identifier_clash(rng, d)
         syntax = rng.choice(["dsl", "dsl", "json", "yaml", "toml"])
@@ -325,9 +327,14 @@ def run(ctx):
         mods.update(gm)
         if not gm:
             continue
-        l2.write_crate(ctx, crate, gm, "fn main() {}\n", features=["defmt"])
+        l2.write_crate(ctx, crate, gm, "fn main() {}\n", features=["defmt"], with_defmt=True)
         ok, out = l2.build(ctx, crate, check_only=True, message_format_json=True, timeout=2400)
         hist[crate + "_modules"] = len(gm)
+        if crate == "c19clean":
+            # the same modules once more with the definitions' DefmtFeature switched on: the `impl defmt::Format` items
+            ok2, out2 = l2.build(ctx, crate, check_only=True, message_format_json=True, timeout=2400, cargo_features=["defmt"])
+            out = out + "\n" + out2
+            hist["c19clean_checked_with_defmt_feature"] = 1
         for line in out.splitlines():
             if not line.startswith("{"):
                 continue
